@@ -6,7 +6,7 @@ from hypothesis import strategies as st
 
 from pbt import gen
 from pbt.engine import Outcome, Violation
-from pbt.harness import Session, algo_label, leaves
+from pbt.harness import Unattributable, Session, algo_label, leaves
 
 PROP = "C07"
 RULE = (
@@ -199,6 +199,8 @@ def check_case(case):
             if uneval:
                 classes.append("unevaluated-cell-present")
             return Outcome(nontrivial=nt_allneg or tied or uneval, classes=classes, rounds=T)
+    except Unattributable:
+        return Outcome(aborted="point-matches-several-cells", classes=classes)
     except Violation as v:
         return Outcome(violation=v.as_dict(), classes=classes, rounds=v.round or 0)
 
